@@ -13,7 +13,7 @@ DESIGN_REF = "DESIGN.md §3 C15"
 RULE = (
     "Hypothesis universes over worlds (<= 6 vertices, <= 10 links of 7 classes incl. self-loops, parallel edges, "
     "mixed directed/undirected/unknown-class links, links leaving the universe, vertices carrying unrelated "
-    "attributes), rvfunc = index title or default, refunc optional.  Oracle on the returned network: node ids are "
+    "attributes), rvfunc = index title (one persistent function object) or default, refunc optional, network_kwargs in {default, directed=True, directed=False}.  Oracle on the returned network: node ids are "
     "0..n-1 in universe order with label rvfunc(v) (hex(id(v)) by default); every edge joins two node ids that are "
     "joined by at least one link; the multiset of arrowed edges (from,to) equals the multiset of (index(v1), "
     "index(v2)) over directed-family links with both ends members; an arrow-less edge implies a non-directed link "
@@ -38,6 +38,11 @@ def budget(tier):
 
 def strategy(tier):
     return render.cases()
+
+
+def _TITLE(v):
+    """One persistent rvfunc object for all exports (its output follows the vertex's current attribute)."""
+    return "n%d" % v.i
 
 
 def check_case(case):
@@ -70,13 +75,16 @@ def _check_export(case, vs, ls, u):
     from edgegraph.output import pyvis
     from edgegraph.structure import DirectedEdge
 
-    title = lambda v: "n%d" % v.i
+    title = _TITLE
+    nk = [None, None, {"directed": True}, {"directed": False, "cdn_resources": "local"}][(case["opt"] >> 4) % 4]
     use_rv = bool(case["opt"] & 1)
     use_re = bool(case["opt"] & 2)
     li = {id(l): i for i, l in enumerate(ls)}
     try:
         if case["opt"] & 4:
             net = pyvis.pyvis_render_customizable(u, rvfunc=title if use_rv else None, refunc=(lambda e: "e%d" % li[id(e)]) if use_re else None)
+        elif nk is not None:
+            net = pyvis.make_pyvis_net(u, rvfunc=title if use_rv else None, refunc=(lambda e: "e%d" % li[id(e)]) if use_re else None, network_kwargs=dict(nk))
         else:
             net = pyvis.make_pyvis_net(u, rvfunc=title if use_rv else None, refunc=(lambda e: "e%d" % li[id(e)]) if use_re else None)
     except Exception as e:  # noqa
@@ -124,4 +132,6 @@ def _check_export(case, vs, ls, u):
         classes.append("link-leaving-universe")
     if not use_rv:
         classes.append("default-labels")
+    if nk is not None:
+        classes.append("network_kwargs:" + ("directed" if nk.get("directed") else "undirected"))
     return dict(nt=(has_d and has_u) or selfl or leaving, classes=classes)
